@@ -17,7 +17,7 @@ def tokens_in(s):
 def run(tier):
     ck = C.Check("C07", tier)
     failed = ck.proofs()
-    n_g, n_r = (55, 10) if tier == "quick" else (700, 30)
+    n_g, n_r = (55, 10) if tier == "quick" else (400, 24)
     res = P.run_family(ck, n_g, n_r, p_err=1.0, want_hist=False)
     ties = pc.tie_violations(ck, res, want_kinds=("parse", "stripped"))
     st = {"error_grammars": 0, "lr1_error_grammars": 0, "runs": 0, "recovered_runs": 0, "inert_checks": 0, "gave_up": 0, "multi_error": 0}
